@@ -17,7 +17,10 @@ BACKENDS = {
 
 
 def to_smt2(axioms, assumptions, goal):
+    from .ops import DEFAULT_AXIOMS
     s = z3.Solver()
+    for a in DEFAULT_AXIOMS:
+        s.add(a)
     for a in axioms:
         s.add(a)
     for a in assumptions:
